@@ -214,6 +214,10 @@ func runC13(c *wk.Ctx) {
 		c.Begin(0, "valid and invalid struct values validated by 8 goroutines")
 		c13MixedVerdicts(c)
 	}
+	if c.Mine(1) {
+		c.Begin(1, "nested values under an any-typed property, many goroutines at once")
+		c13DeepAny(c)
+	}
 	c.Cases(n, func(idx int64, r *wk.Rand) {
 		g := 2 + r.Intn(15)
 		switch idx % 10 {
@@ -803,5 +807,87 @@ func c13MixedVerdicts(c *wk.Ctx) {
 	if wrong.Load() > 0 {
 		c.Violation("C13:differs-from-isolated:mixed-valid-and-invalid-struct-values", fmt.Sprintf("%d of %d concurrent Validate / Serialize calls on one struct-mapped object returned another verdict than the value has; first: %v", wrong.Load(), 2*G*rounds, first.Load()),
 			map[string]any{"schema": shape.Describe()})
+	}
+}
+
+// c13DeepAny: one scope with an any-typed property (constructor-built and rebuilt from its description); 16
+// goroutines unserialize, validate and serialize values nested 1..40 levels deep (lists in maps in lists), all at
+// once and for a while, so that many calls are inside the same schema object at the same time. Every outcome is what
+// the same call gives on a twin used by one goroutine.
+func c13DeepAny(c *wk.Ctx) {
+	build := func(rebuilt bool) schema.Type {
+		s := schema.NewScopeSchema(schema.NewObjectSchema("Doc", map[string]*schema.PropertySchema{
+			"body": schema.NewPropertySchema(schema.NewAnySchema(), nil, false, nil, nil, nil, nil, nil),
+			"n":    schema.NewPropertySchema(schema.NewIntSchema(nil, nil, nil), nil, false, nil, nil, nil, nil, nil)}))
+		if rebuilt {
+			if rb, err := rebuildScope(s); err == nil {
+				return rb
+			}
+		}
+		return s
+	}
+	nest := func(depth int, leaf any) any {
+		v := leaf
+		for d := 0; d < depth; d++ {
+			if d%2 == 0 {
+				v = map[string]any{"k": v, "w": int64(d)}
+			} else {
+				v = []any{v, "x"}
+			}
+		}
+		return map[string]any{"body": v, "n": int64(depth)}
+	}
+	var inputs []any
+	for _, d := range []int{1, 2, 5, 12, 20, 30, 40} {
+		inputs = append(inputs, nest(d, int64(7)), nest(d, "leaf"), nest(d, struct{ X int }{1})) // the last one is rejected
+	}
+	for _, rebuilt := range []bool{false, true} {
+		kind := map[bool]string{false: "fresh-built", true: "rebuilt-from-description"}[rebuilt]
+		twin, raced := build(rebuilt), build(rebuilt)
+		call := func(t schema.Type, i, op int) string {
+			return c13Outcome(func() (any, error) {
+				switch op {
+				case 0:
+					return t.Unserialize(gen.CopyRaw(inputs[i]))
+				case 1:
+					return nil, t.Validate(gen.CopyRaw(inputs[i]))
+				}
+				return t.Serialize(gen.CopyRaw(inputs[i]))
+			})
+		}
+		expect := make([][3]string, len(inputs))
+		for i := range inputs {
+			for op := 0; op < 3; op++ {
+				expect[i][op] = call(twin, i, op)
+			}
+		}
+		const G, rounds = 16, 300
+		var ready, wrong atomic.Int32
+		var first atomic.Value
+		var wg sync.WaitGroup
+		for g := 0; g < G; g++ {
+			wg.Add(1)
+			go func(g int) {
+				defer wg.Done()
+				ready.Add(1)
+				for ready.Load() < G {
+				}
+				for k := 0; k < rounds; k++ {
+					i, op := (k*5+g*3)%len(inputs), (k+g)%3
+					if got := call(raced, i, op); got != expect[i][op] {
+						wrong.Add(1)
+						first.CompareAndSwap(nil, fmt.Sprintf("%s of input #%d (nesting %d): isolated %s, concurrent %s", []string{"Unserialize", "Validate", "Serialize"}[op], i, []int{1, 2, 5, 12, 20, 30, 40}[i/3], clipStr(expect[i][op], 200), clipStr(got, 200)))
+					}
+				}
+			}(g)
+		}
+		wg.Wait()
+		c.CountN("concurrent_calls", G*rounds)
+		c.Count("trials:deep-any-values")
+		c.Eval(wk.Hash64("deep-any", kind), true)
+		if wrong.Load() > 0 {
+			c.Violation("C13:differs-from-isolated:"+kind+":deep-any-values", fmt.Sprintf("%d of %d calls on values nested under an any-typed property returned something else with 16 goroutines inside the same schema than in isolation; first: %v", wrong.Load(), G*rounds, first.Load()),
+				map[string]any{"schema": "Doc{body: any, n: int}", "goroutines": G, "first": first.Load()})
+		}
 	}
 }
